@@ -41,6 +41,14 @@ CLAIMED = {
          "Model checking of the template expansion loop against an independent definition of 'placeholder outside quoted text' for every template over an 18-item alphabet (quoted literals with embedded marks, doubled marks, $n, lone marks, adjacency cases), plus trace validation of the real cust_with_values / inject_parameters on the same templates and random Unicode ones: output text must be the template with exactly the designated values substituted, bound values in emission order.",
          "Trusted: TLC; the stated domain restrictions (PostgreSQL `$` glued to word characters; literal marks produced by doubled marks for inject). Known finding: lone `$` on PostgreSQL.",
          "§5 C11"),
+ "C01": ("Writer.tla (SqlWriterValues as Write/PushParam actions, inductive invariant on counter/values/placeholders) and Stmt.tla (statement builders as state machines + the clause-emission order of prepare_*_statement with all backend overrides) checked by TLC over the pairwise-complete clause product; the same statements replayed on the real crate with the public SqlWriter trait recording the event stream; TLC validates events, placeholder lexing and bound-value order against StmtLaw!BoundOrder",
+         "Model checking of the writer automaton and of the statement renderer model (C01 invariants on every enumerated statement x 3 backends), plus trace validation of the real renderer: the recorded write/push_param events must be a behaviour of Writer.tla, the engine lexer must find exactly n placeholders (PostgreSQL $1..$n ascending), and the bound values must be the values given, in the order the dialect's grammar places their clauses (values are distinct tags).",
+         "Trusted: TLC; EngineLex; the per-dialect clause order of StmtLaw.tla (Appendix C.3).",
+         "§5 C01"),
+ "C02": ("Stmt.tla renders every statement with a String writer and with SqlWriterValues (ToParams); TLC checks token-for-token equality modulo literal substitution on the model and on the recordings of the real crate for all entry points; both forms executed on the real SQLite",
+         "Model checking (RenderInline vs RenderParams on every enumerated statement) plus trace validation of the real code: Lex(to_string) must equal Lex(build.sql) with each placeholder replaced by the tokens of the backend literal of the bound value; build, build_any, build_collect, build_collect_any, to_string twice and build_collect(String) must agree; the statement must equal its clone after rendering; on SQLite both forms are executed over the fixture and must return the same rows and table contents.",
+         "Trusted: TLC; EngineLex; SQLite 3.40.1. Numeric literals are compared as text.",
+         "§5 C02"),
 }
 NA = {
  "C20": "Type-level fact about Rust auto-traits decided only by rustc's trait solver; no state, transition or observable behaviour to model or trace (DESIGN.md §5 C20).",
